@@ -31,7 +31,8 @@ RULE = ('Scenarios: generated chains of 4..12 blocks with 2..6 planned flushes (
         'equals the replay model of the chain to that height; a fresh block processor resumes to '
         'the tip and the observation equals the model of the whole chain (= the uninterrupted '
         'run). Non-trivial = the cut lies strictly inside a flush; distinct by (scenario, cut). '
-        'evaluations = scenario executions.')
+        'evaluations = scenario executions.' 
+        'tool_first stratum (a quarter of scenarios without shrunk files): after each death the compaction tool\'s own coroutine opens the directory before the server does (refused while the database is still in its first sync; counted).')
 ASSUMPTIONS = ['crash = process death: completed writes survive, LevelDB batches are atomic',
                'power loss (unsynced meta files lost while synced LevelDB survives) is not modelled',
                'the very first creation of the database directory is outside the statement']
@@ -42,10 +43,40 @@ def shards(tier):
     return 16
 
 
+def run_compaction_tool(db_dir, coin, limit):
+    '''electrumx_compact_history's own coroutine on the directory -> ('completed'|'refused'|'failed', why).'''
+    import asyncio
+    import gc
+    import traceback
+    from pbt.checks.c14 import load_tool
+    from pbt.node import make_env, reset_globals
+    from pbt.simloop import run_sim
+    from pbt.core import VERIF_DIR
+    out = ['completed', None]
+
+    async def main(loop):
+        reset_globals()
+        make_env(db_dir, coin, limit)        # sets os.environ for the tool
+        try:
+            await load_tool().compact_history()
+        except AssertionError as e:
+            last = ''.join(traceback.format_tb(e.__traceback__)[-1:])
+            out[:] = ['refused', None] if 'first_sync' in last else ['failed', f'{e!r} {last}']
+        except Exception as e:
+            out[:] = ['failed', repr(e)]
+    try:
+        run_sim(main, vt_deadline=5000)
+    finally:
+        gc.collect()            # the tool leaves its handles to process exit
+        os.chdir(VERIF_DIR)
+    gc.collect()
+    return out
+
+
 def case_strategy():
     base = scenario.sync_case(min_blocks=4, max_blocks=12, max_txs=4)
 
-    def shape(case, flushes, small_files, tail):
+    def shape(case, flushes, small_files, tail, tool_first=0):
         n = len(case['blocks'])
         case = dict(case)
         case['flush'] = [flushes[i % len(flushes)] for i in range(n)]
@@ -54,11 +85,14 @@ def case_strategy():
         # blocks that arrive after the first catch-up (the databases have been re-opened for
         # serving by then; each is flushed in full when the processor catches up again)
         case['tail'] = tail
+        # after the death the compaction tool opens the directory before the server does
+        case['tool_first'] = tool_first
         return case
     return st.builds(shape, base,
                      st.lists(st.sampled_from([0, 1, 2, 2, 0, 1]), min_size=2, max_size=12),
                      st.sampled_from([0, 0, 1]),
-                     st.lists(scenario.block_desc(max_txs=3), max_size=3))
+                     st.lists(scenario.block_desc(max_txs=3), max_size=3),
+                     st.sampled_from([0, 0, 0, 1]))
 
 
 def shrink_files(db):
@@ -167,6 +201,14 @@ def run_scenario(ctx_like, scratch, case, cuts=None, double=False, last_flush_on
             close_leaked_handles(os.path.abspath(crashed_copy))
             shutil.rmtree(crashed_copy, ignore_errors=True)
             shutil.copytree(db_dir, crashed_copy)
+        if case.get('tool_first') and db_setup is None:
+            # the first program to open the directory after the death is the compaction tool
+            # (it refuses databases still in their first sync); the server comes after it
+            outcome = run_compaction_tool(db_dir, coin, limit)
+            info['tool_first_' + outcome[0]] = info.get('tool_first_' + outcome[0], 0) + 1
+            if outcome[0] == 'failed':
+                return f'{label}: the compaction tool failed on the directory: {outcome[1]}', \
+                    'tool_after_crash', info
         rec_ctl = Controller()
         rec_ctl.enabled = True
         rec = crash.reopen_and_observe(db_dir, coin, limit, model_for_height, rec_ctl, db_setup)
@@ -227,6 +269,8 @@ def body(ctx):
         ctx.classes['cuts'] += info['cuts']
         ctx.classes['cuts.inside_flush'] += info['inside_flush']
         ctx.classes['cuts.second_cut_in_recovery'] += info['double']
+        for k in ('tool_first_completed', 'tool_first_refused'):
+            ctx.classes['cuts.' + k] += info.get(k, 0)
         ctx.record(case=case, nontrivial=False, classes=['scenario'])
         if len(ctx.samples) < 2 and info['cuts']:
             ctx.samples.append({'check': 'c04.scenario', 'case': case, 'cuts': info['cuts'],
